@@ -329,6 +329,12 @@ func (m *model) replayOutcome(f *inflight, last *mLast, checkSid bool) outcome {
 	if last.status == ok {
 		m.mark("replay_ok_" + op.Kind)
 	}
+	if last.wrapped {
+		// The cached reply carries seqid 1, the retransmitted request
+		// (correctly) 2^32-1: isNextSid has to know that 1 follows 2^32-1.
+		m.mark("replay_of_wrapping_operation")
+		m.mark("replay_of_wrapping_operation:" + op.Kind)
+	}
 	return o
 }
 
@@ -608,12 +614,13 @@ func (m *model) finishOpenOK(f *inflight) outcome {
 	}
 	of := oo.files[leaf]
 	isNew := of == nil
+	wrapped := false
 	if isNew {
 		of = &mOF{oo: oo, leaf: leaf, seq: 1, lfs: map[string]*mLF{}}
 		oo.files[leaf] = of
 		m.ofs = append(m.ofs, of)
 	} else {
-		of.seq = nextSeq(of.seq)
+		of.seq, wrapped = m.bumpSid(of.seq, kOpen)
 		if f.bits&^of.access != 0 {
 			m.mark("open_upgrade")
 		} else {
@@ -629,7 +636,7 @@ func (m *model) finishOpenOK(f *inflight) outcome {
 	of.access |= f.bits
 	needConfirm := !oo.confirmed
 	wantSeq := of.seq
-	last := &mLast{kind: kOpen, status: ok, step: op.N}
+	last := &mLast{kind: kOpen, status: ok, step: op.N, wrapped: wrapped}
 	m.completeTxn(oo, op.Seq, last)
 	if leaf.name == "" {
 		m.mark("open_completed_on_unlinked_file")
@@ -797,7 +804,7 @@ func (m *model) runOpenOwnerOp(f *inflight) outcome {
 		last.closed = of
 		m.mark("close")
 	}
-	of.seq = nextSeq(of.seq)
+	of.seq, last.wrapped = m.bumpSid(of.seq, op.Kind)
 	want := sid{Seq: of.seq, Other: of.other}
 	last.respSid = &want
 	m.completeTxn(oo, op.Seq, last)
@@ -1096,6 +1103,10 @@ func (m *model) runLockNew(f *inflight) outcome {
 	if lo.lastResp != nil && op.LockSeq == lo.lastSeq {
 		if lo.lastResp.kind == kLock {
 			m.mark("lock_owner_replay_through_new_open")
+			if lo.lastResp.wrapped {
+				m.mark("replay_of_wrapping_operation")
+				m.mark("replay_of_wrapping_operation:" + kLock)
+			}
 			return finish(lo.lastResp.status, "lock-owner seqid equals its last one: cached LOCK reply", lo.lastResp)
 		}
 		o := finish(nfsv4.NFS4ERR_BAD_SEQID, "lock-owner seqid of its previous LOCKU reused by LOCK", nil)
@@ -1226,7 +1237,7 @@ func (m *model) runLockOwnerOp(f *inflight) outcome {
 			m.mark("unlock_of_held_range")
 		}
 		m.setLock(lf.of.leaf, key, from, to, 0)
-		lf.seq = nextSeq(lf.seq)
+		lf.seq, last.wrapped = m.bumpSid(lf.seq, kLocku)
 		want := sid{Seq: lf.seq, Other: lf.other}
 		last.respSid = &want
 		o := finish(ok, "LOCKU always succeeds", check{"C20", func(res *nfsv4.Compound4res) error {
@@ -1242,7 +1253,7 @@ func (m *model) runLockOwnerOp(f *inflight) outcome {
 	st, why, denied := m.lockCommon(lf, op)
 	var want *sid
 	if st == ok {
-		lf.seq = nextSeq(lf.seq)
+		lf.seq, last.wrapped = m.bumpSid(lf.seq, kLock)
 		want = &sid{Seq: lf.seq, Other: lf.other}
 		last.respSid = want
 		m.mark("lock_granted")
